@@ -98,7 +98,7 @@ func hC09Req() {
 	}
 	maxN := 6
 	if verifTier() == 1 {
-		maxN = 11
+		maxN = 8
 	}
 	n := verifChoose("streamLen", maxN+1)
 	stream := symbolicStream("wire", n)
@@ -195,7 +195,7 @@ func hC09Resp() {
 	target, codec, _ := refNegotiate(cfg)
 	maxN := 5
 	if verifTier() == 1 {
-		maxN = 10
+		maxN = 7
 	}
 	n := verifChoose("streamLen", maxN+1)
 	data := symbolicStream("wire", n)
